@@ -95,6 +95,20 @@ func runC14(r *Run) {
 			return err
 		})
 	}
+	// a region of > 100 records, so that range deletes over it take the engine's range-tombstone path
+	bulk := g.Chance(45)
+	r.Knobs["bulk_region"] = bulk
+	bulkKey := func(i int) string { return fmt.Sprintf("b/%03d", i) }
+	preload := func() {
+		for b := 0; b < 130; b += 65 {
+			req := &proto.WriteRequest{}
+			for i := b; i < b+65; i++ {
+				req.Puts = append(req.Puts, &proto.PutRequest{Key: bulkKey(i), Value: []byte("bulk")})
+			}
+			write(req)
+		}
+		r.Count("bulk_preloads", 1)
+	}
 	owner := func(idx int) {
 		og := NewRng(r.Seed, "owner", idx)
 		for round := 0; round < 3 && !stopped(); round++ {
@@ -138,6 +152,9 @@ func runC14(r *Run) {
 				r.Count("heartbeats", 1)
 				if og.Chance(50) {
 					k := keys[og.Intn(len(keys))]
+					if bulk && og.Chance(40) {
+						k = bulkKey(og.Range(90, 129))
+					}
 					if og.Chance(80) {
 						write(&proto.WriteRequest{Puts: []*proto.PutRequest{{Key: k, Value: []byte(fmt.Sprintf("o%d", idx)), SessionId: &s.id}}})
 						r.Count("ephemeral_puts", 1)
@@ -211,8 +228,15 @@ func runC14(r *Run) {
 				write(&proto.WriteRequest{Puts: []*proto.PutRequest{{Key: k, Value: []byte(fmt.Sprintf("w%d", idx))}}})
 			case x < 60:
 				write(&proto.WriteRequest{Deletes: []*proto.DeleteRequest{{Key: k}}})
-			case x < 68:
+			case x < 64:
 				write(&proto.WriteRequest{DeleteRanges: []*proto.DeleteRangeRequest{{StartInclusive: "e/", EndExclusive: "e/~"}}})
+			case x < 68 && bulk:
+				write(&proto.WriteRequest{DeleteRanges: []*proto.DeleteRangeRequest{{StartInclusive: "b/", EndExclusive: "b/~"}}})
+				r.Count("bulk_range_deletes", 1)
+				time.Sleep(time.Duration(wg.Range(1, 300)) * time.Millisecond)
+				preload()
+			case x < 68:
+				write(&proto.WriteRequest{Deletes: []*proto.DeleteRequest{{Key: k}}})
 			case x < 85 && own != nil:
 				write(&proto.WriteRequest{Puts: []*proto.PutRequest{{Key: k, Value: []byte("ws"), SessionId: own}}})
 				_ = call(func(ctx context.Context, cl proto.OxiaClientClient) error {
@@ -237,6 +261,9 @@ func runC14(r *Run) {
 			return
 		}
 		leaderReady = append(leaderReady, nowMs())
+		if bulk {
+			preload()
+		}
 		var wg sync.WaitGroup
 		for i := 0; i < nOwners; i++ {
 			if !r.KeepItem(i) {
@@ -340,6 +367,8 @@ func c14Audit(wl *w2Workload, sessions []*c14Session, leaderReady, downFrom, dow
 	}
 	m := wl.c.model
 	endedAt := map[int64]int64{}
+	ownerOf := map[string]int64{}         // key -> owning session, per the model, before the entry
+	lostAt := map[int64]map[string]int64{} // session -> key -> entry timestamp at which it stopped owning the key
 	for _, e := range ents {
 		if e.Offset > committedUpTo(v) {
 			break
@@ -365,8 +394,18 @@ func c14Audit(wl *w2Workload, sessions []*c14Session, leaderReady, downFrom, dow
 				}
 				for _, k := range info.DeletedKeys {
 					if named[k] && !owned[k] && !strings.HasPrefix(k, internalPrefix) {
-						wl.fail("session-end-removes-foreign-record", "log entry %d ends session %d and removes record %q, which that session did not own when the entry was applied (it had been overwritten or re-created by somebody else in the meantime); owned at that moment: %v",
-							e.Offset, sid, k, info.OwnedBefore[sid])
+						// the clean-up lists the owned keys a moment before its entry is applied: a key lost
+						// within that moment is the recorded list-then-delete race; a key lost long before
+						// means the session's index of owned keys was stale
+						lost, ever := lostAt[sid][k]
+						ago := int64(e.Timestamp) - lost
+						if ever && ago <= 1500 {
+							wl.fail("session-end-removes-foreign-record", "log entry %d ends session %d and removes record %q, which that session did not own when the entry was applied (it had been overwritten or re-created by somebody else in the meantime, %d ms before); owned at that moment: %v",
+								e.Offset, sid, k, ago, info.OwnedBefore[sid])
+						} else {
+							wl.fail("session-end-removes-record-lost-long-before", "log entry %d ends session %d and removes record %q, which that session had not owned for %d ms (ever owned: %v): the session's index of owned keys was stale; owned at that moment: %v",
+								e.Offset, sid, k, ago, ever, info.OwnedBefore[sid])
+						}
 						return
 					}
 				}
@@ -376,6 +415,22 @@ func c14Audit(wl *w2Workload, sessions []*c14Session, leaderReady, downFrom, dow
 							e.Offset, sid, k, keysOfDeletes(wr))
 						return
 					}
+				}
+			}
+			// ownership changes made by this entry
+			for k, prev := range ownerOf {
+				rec, ok := m.Recs[k]
+				if !ok || rec.Session == nil || *rec.Session != prev {
+					if lostAt[prev] == nil {
+						lostAt[prev] = map[string]int64{}
+					}
+					lostAt[prev][k] = int64(e.Timestamp)
+					delete(ownerOf, k)
+				}
+			}
+			for k, rec := range m.Recs {
+				if rec.Session != nil && !strings.HasPrefix(k, internalPrefix) {
+					ownerOf[k] = *rec.Session
 				}
 			}
 			// no record may name a session that does not exist
